@@ -5,6 +5,7 @@
 //! counterexample is a single byte string that the native build can re-run unchanged.
 #![allow(clippy::all)]
 #![allow(dead_code, unused_imports, unused_variables, unused_mut)]
+extern crate alloc;
 pub mod compat;
 pub mod inp;
 pub mod scen;
